@@ -63,6 +63,11 @@ def cleanup(d):
 
 # --------------------------------------------------------------------------- build
 
+def hooks_present():
+    """The wtransport_verif hooks (wtransport::verif) exist in /repo's working tree."""
+    return os.path.exists(os.path.join(REPO, "wtransport", "src", "driver", "verif.rs"))
+
+
 def build_harness(profile="debug"):
     """Rebuilds the harness (and with it /repo's working tree) and returns the binary."""
     lock_src = os.path.join(REPO, "Cargo.lock")
@@ -72,6 +77,8 @@ def build_harness(profile="debug"):
     cmd = ["cargo", "build", "--offline", "--quiet"]
     if profile == "release":
         cmd.append("--release")
+    if hooks_present():
+        cmd += ["--features", "mech"]
     env = dict(os.environ)
     env["CARGO_NET_OFFLINE"] = "true"
     t0 = time.time()
@@ -210,6 +217,23 @@ def apalache_laws(spec, inv, name, timeout=600):
         rec["note"] = "no verdict (rc=%d)" % r.returncode
         log("[apalache] %s %s: no verdict (rc=%d)" % (spec, inv, r.returncode))
     return rec
+
+
+def tlc_mech(trace_path, name, timeout=1500):
+    """Validates mechanism segments against DriverTrace.tla. Returns (furthest position reached by any
+    behaviour, states); the file is accepted iff furthest = number of lines + 1."""
+    md = workdir("val-" + name)
+    try:
+        rc, out = tlc_raw("DriverTrace.tla", "DriverTrace.cfg", md, workers=1, env_extra={"TRACE": trace_path},
+                          timeout=timeout, xmx="4g", props=["-Dtlc2.tool.queue.IStateQueue=StateDeque"])
+    finally:
+        cleanup(md)
+    m = re.search(r'<<"FURTHEST", (\d+), (\d+)>>', out)
+    if not m:
+        log(out[-3000:])
+        raise ToolError("DriverTrace validation produced no verdict (rc=%d)" % rc)
+    _, dist = parse_states(out)
+    return int(m.group(1)), dist
 
 
 def tlc_prints(out, tag):
